@@ -85,6 +85,8 @@ def main():
                         continue
                     expected = [j for j in range(nv) if relp[j] >= 3e-2]
         stats["checked"] += 1
+        if rec.get("unmentioned_added", 0) >= 40:
+            stats["with_many_unmentioned_variables"] = stats.get("with_many_unmentioned_variables", 0) + 1
         if rec.get("fell_back"):
             stats["fell_back_to_a_previous_level"] += 1
         stats["with_free_variables" if expected else "fully_constrained"] += 1
